@@ -16,6 +16,7 @@ import ScalesModel.Adapter.FrontEnd
 import ScalesModel.Adapter.E2E
 import ScalesModel.Adapter.TagPool
 import ScalesModel.Adapter.Shared
+import ScalesModel.Adapter.KafkaCodec
 open Scales
 
 def components : List Comp := [
@@ -29,7 +30,8 @@ def components : List Comp := [
   ⟨"tagpool", Scales.TagPool.comp.run⟩,
   ⟨"singleton", Scales.Shared.singleton.run⟩,
   ⟨"refcount", Scales.Shared.refcount.run⟩,
-  ⟨"sharedprov", Scales.Shared.sharedprov.run⟩
+  ⟨"sharedprov", Scales.Shared.sharedprov.run⟩,
+  ⟨"kafkacodec", Scales.Kafka.comp.run⟩
 ]
 
 structure CaseAcc where
